@@ -6,9 +6,12 @@ import (
 	"os"
 	"testing"
 
+	"github.com/idena-network/idena-go/blockchain/attachments"
 	"github.com/idena-network/idena-go/blockchain/types"
+	"github.com/idena-network/idena-go/blockchain/validation"
 	"github.com/idena-network/idena-go/common"
 	"github.com/idena-network/idena-go/core/state"
+	"github.com/idena-network/idena-go/crypto"
 	"pgregory.net/rapid"
 
 	"verifharness/internal/evid"
@@ -78,13 +81,13 @@ func TestIssuanceBounded(t *testing.T) {
 // invitations, activations, ceremony transactions, payments, stake replenishments and terminations - so that invitees
 // collect their (locked, partly replenished) rewards at ages 1-3, are promoted, paid out, spend and terminate.
 func TestIssuanceBoundedCareers(t *testing.T) {
-	issuanceBounded(t, sim.Options{MinActors: 4, MaxActors: 8, Replicas: 1, MaxReplicas: 3, Steps: 110, MaxTxPerStep: 6,
+	issuanceBoundedWith(t, sim.Options{MinActors: 4, MaxActors: 8, Replicas: 1, MaxReplicas: 3, Steps: 130, MaxTxPerStep: 6,
 		OnlyTypes: []types.TxType{types.InviteTx, types.InviteTx, types.InviteTx, types.ActivationTx, types.ActivationTx, types.ActivationTx, types.SubmitAnswersHashTx, types.SubmitShortAnswersTx,
 			types.SubmitLongAnswersTx, types.EvidenceTx, types.SendTx, types.SendTx, types.KillTx, types.ReplenishStakeTx, types.DelegateTx,
 			// (a newbie has to make its required flips in every epoch to stay alive)
 			types.SubmitFlipTx, types.SubmitFlipTx, types.SubmitFlipTx, types.SubmitFlipTx, types.SubmitFlipTx, types.SubmitFlipTx, types.SubmitFlipTx, types.SubmitFlipTx},
 		Params: func(p *sim.Params) {
-			p.CeremonyIn, p.Interval, p.WellBehaved = 150, 420, 85
+			p.CeremonyIn, p.Interval, p.WellBehaved = 150, 700, 85
 			p.Profile = "v12"
 			// the inviters' stake decides the size of the invitation rewards (and of the invitee's share)
 			p.States[0], p.Stakes[0] = state.Human, sim.Dna(500)
@@ -93,15 +96,57 @@ func TestIssuanceBoundedCareers(t *testing.T) {
 					p.Balances[i] = sim.Dna(2000)
 				}
 			}
-		}})
+		}}, true)
 }
 
-func issuanceBounded(t *testing.T, opt sim.Options) {
+func issuanceBounded(t *testing.T, opt sim.Options) { issuanceBoundedWith(t, opt, false) }
+
+// diligent: identities that have to make flips to stay alive do make them (a drawn half of them per block), as
+// real participants do; everything else stays generated.
+func makeRequiredFlips(t *rapid.T, h *sim.History) {
+	w := h.W
+	r := w.Replicas[0]
+	s := r.ReadState()
+	if s.State.ValidationPeriod() != state.NonePeriod {
+		return
+	}
+	epoch := s.State.Epoch()
+	for _, a := range w.Actors {
+		id := s.State.GetIdentity(a.Addr)
+		if int(id.RequiredFlips) <= len(id.Flips) || !rapid.Bool().Draw(t, "makesAFlipNow") {
+			continue
+		}
+		used := map[uint8]bool{}
+		for _, f := range id.Flips {
+			used[f.Pair] = true
+		}
+		pair := uint8(0)
+		for used[pair] {
+			pair++
+		}
+		cid := append([]byte{0x01, 0x55, 0x12, 0x20}, crypto.Keccak256([]byte{a.Addr[0], a.Addr[1], byte(epoch), byte(epoch >> 8), byte(len(id.Flips)), 0x0f})...)
+		tx := &types.Transaction{Type: types.SubmitFlipTx, Epoch: epoch, AccountNonce: r.AppState.NonceCache.GetNonce(a.Addr, epoch) + 1, Payload: attachments.CreateFlipSubmitAttachment(cid, pair)}
+		signed, err := types.SignTx(tx, a.Key)
+		if err != nil {
+			t.Fatal(err)
+		}
+		if err := r.Pool.AddExternalTxs(validation.InboundTx, signed); err != nil {
+			evid.Count("career.required_flip_refused")
+		} else {
+			evid.Count("career.required_flip_submitted")
+		}
+	}
+}
+
+func issuanceBoundedWith(t *testing.T, opt sim.Options, diligent bool) {
 	rapid.Check(t, func(t *rapid.T) {
 		var prev *ledger
 		var prevEpochBlock uint64
 		events := map[string]bool{}
 		opt.BetweenBlocks = func(h *sim.History) {
+			if diligent {
+				makeRequiredFlips(t, h)
+			}
 			r := h.W.Replicas[0]
 			s := r.ReadState()
 			if prev == nil {
@@ -191,6 +236,13 @@ func issuanceBounded(t *testing.T, opt sim.Options) {
 			prev = cur
 		}
 		h := sim.RunHistory(t, opt)
+		if os.Getenv("C04_TRACE") != "" {
+			for _, o := range h.Offered {
+				if o.Tx.Type == types.SubmitFlipTx {
+					fmt.Fprintf(os.Stderr, "flipoffer err=%v\n", o.Err)
+				}
+			}
+		}
 		if len(events) > 0 {
 			evid.NonTrivial(h.Descriptor())
 			evid.Sample("history", fmt.Sprintf("%v | %s", events, h.Descriptor()))
